@@ -14,7 +14,7 @@ if r.returncode != 0:
     print('patch does not apply:', r.stdout); sys.exit(2)
 hits = []
 try:
-    env = dict(os.environ, VERIF_EVIDENCE_DIR='/tmp/seedtest_ev')
+    env = dict(os.environ, VERIF_EVIDENCE_DIR='/tmp/seedtest_ev', VERIF_TIER='quick')
     os.makedirs('/tmp/seedtest_ev', exist_ok=True)
     for p in props:
         r = sh('%s/check %s' % (VERIF, p), env=env)
